@@ -27,6 +27,7 @@ REDS = ["sum", "any", "all", "max", "mean", "np.sum", "np.any", "np.all", "np.me
 KINDS = ["unary", "rl", "rl_derived", "inplace", "pyscalar", "npscalar", "reduce", "concat", "hist"]
 FLOOR_TAGS = ["k:" + k for k in KINDS] + ["align:" + a for a in ALIGN] + ["side:L", "side:R", "kind:b", "kind:i", "kind:u", "kind:f", "noncommutative"] + ["red:" + r for r in REDS] + ["via:cmp-mixed", "k:chain", "step:binary", "step:slice", "step:mask", "step:concat", "step:astype", "step:scalar", "step:unary"]
 FLOOR_MONITORS = ["c16:compare", "c16:operands-unchanged", "c16:canonical", "inv:rla"]
+FP_STRICT = True       # a floating-point event inside the library that the dense computation does not have is a violation (shard.FpMonitor)
 N_RANDOM = {"quick": 36000, "thorough": 400000}
 PYSCALARS = [2, 3, -1, 0, 2.5, True, False]
 NONCOMM = {"subtract", "true_divide", "floor_divide", "remainder", "power", "less", "less_equal", "greater", "greater_equal", "left_shift", "right_shift"}
